@@ -13,6 +13,7 @@ ASSIGN = [
     ['ab', None, 'cd', 5, None, 'x', 2, 'ab'],          # texts and blanks
     [0, 1, 1, 2, 0, 3, 2, 1],                           # zeros and equal operands: division by zero, ties in comparisons
     [None, -1, -0.5, None, 3, -7, 0, None],             # blanks next to negative numbers and zero: a blank counts as 0 on either side of every operator
+    [0, 'v1.0', False, '', 0.0, '2.0', 0, 'x.0'],       # falsy values (as OVERRIDES of non-zero cells) and texts that end in .0
 ]
 
 
@@ -86,8 +87,8 @@ def run(tier, seed):
     chk = core.Check('C01', tier, seed)
     rng = chk.rng
     chk.rule = ('every valid token sequence of the operator grammar (operands, brackets, unary + -, postfix %, + - * / &, six comparisons) up to 5 tokens (quick) / 7 (thorough) '
-                'and random chains to 25 tokens with redundant brackets and spaces, each under 5 operand assignments (distinct primes; signs and dyadic fractions; texts and '
-                'blanks; zeros and ties; blanks next to negative numbers), operands from workbook cells and from overrides; value through the real translator and class vs the Lean model of the grouping + '
+                'and random chains to 25 tokens with redundant brackets and spaces, each under 6 operand assignments (distinct primes; signs and dyadic fractions; texts and '
+                'blanks; zeros and ties; blanks next to negative numbers; falsy overrides and texts ending in .0), operands from workbook cells and from overrides; value through the real translator and class vs the Lean model of the grouping + '
                 'evaluation and vs an independent recursive-descent reading of the same tokens (spec); numeric literals on a decimal grid vs the nearest double; malformed '
                 'operator sequences are rejected. distinct = distinct (formula, assignment)')
     chk.assumptions += ['text forms under & follow Python str() for ints; floats and booleans under & are compared with the model only where it models them (the statement fixes no text form)',
@@ -116,13 +117,13 @@ def run(tier, seed):
         for k in range(0, len(items), B):
             chunk = items[k:k + B]
             formulas = [spaced(rng, f) if rng.random() < 0.2 else f for f, _, _ in chunk]
-            if ai == 1:       # this assignment comes from overrides on top of the first one
+            if ai in (1, 5):       # these assignments come from overrides on top of the first one
                 base = {(c, 0): v for c, v in enumerate(ASSIGN[0])}
                 outs = realcode.eval_formulas(formulas, base, overrides=values, min_rows=2)
             else:
                 outs = realcode.eval_formulas(formulas, values, min_rows=2)
             for (f, toks, _), g in zip(chunk, outs):
-                cases.append(('op %d %s %s' % (len(assign), env, ' '.join(toks)), g, {'formula': f, 'assignment': ai, 'route': 'override' if ai == 1 else 'workbook'}))
+                cases.append(('op %d %s %s' % (len(assign), env, ' '.join(toks)), g, {'formula': f, 'assignment': ai, 'route': 'override' if ai in (1, 5) else 'workbook'}))
                 chk.count('assignment:%d' % ai)
     chk.judge('operators', cases, sample_cap=6)
     # formulas sit in the column after the operands: eval_formulas puts them at column max+2; operands A1..H1 occupy row 1 only
